@@ -443,6 +443,9 @@ def main():
                                  expected=f'is_thread_pool_needed={mode == "thread"} is_process_pool_needed={mode == "process"}'))
     # the switch structure is also what C09 needs from the builder
     failures += [dict(f_, property='C09') for f_ in failures if f_['property'] == 'C15' and 'switch' in str(f_['observed']).lower()]
+    # ... and a DAG that is not the declared relation breaks what the run-time properties take from the builder: the
+    # arguments a node gets (C03), the errors a run can report (C05), the one-of and recurrent structure (C10, C11)
+    failures += [dict(f_, property=p_) for f_ in list(failures) if f_['property'] == 'C15' for p_ in ('C03', 'C05', 'C10', 'C11')]
     result = dict(harness='bounded/builder.py', bound='17 templates (<= 9 node classes, every mark kind, shared and nested '
                   'constructs) x parameter orders (<= 24 each) x single-defect mutations (9 kinds, every applicable position); pool flags: every '
                   'template x every node as a thread / process / inline (non_async) / inline+process node, all nodes inline, and single-node builds',
